@@ -238,6 +238,30 @@ def pairing(ctx, db):
         for f in db.need(name)[:1]:
             dl = [e for e in f.events() if e.k == 'call' and norm(e.get('callee')) == 'operator delete' and norm((e.get('args') or [{}])[0].get('field') or '') == 'cocls::reusable_storage::_ptr']
             ctx.ob(rid, f, f['key'], len(dl) == 1, '%s releases the owned block once' % name.split('::')[-1], desc='%s does not release the owned block exactly once' % name)
+    # a moved-from reusable_storage owns nothing: pointer AND capacity are reset together (a capacity left behind makes the next alloc of
+    # the moved-from object skip its allocation and hand out the null block)
+    nmv = 0
+    for name in ('cocls::reusable_storage::reusable_storage', 'cocls::reusable_storage::operator='):
+        for f in db.fns(name)[:4]:
+            if not (f['params'] and '&&' in f['params'][0]['type']):
+                continue
+            src = 'param:' + f['params'][0]['name']
+            reset = set()
+            for e in f.events():
+                if e.k == 'call' and norm(e.get('callee') or '') == 'std::exchange' and (e.get('args') or [{}])[0].get('path', '').startswith(src + '.'):
+                    reset.add(e['args'][0]['path'].split('.')[-1])
+                if e.k == 'write' and (e.get('path') or '').startswith(src + '.') and e.get('const') in (0,) or (e.k == 'write' and (e.get('path') or '').startswith(src + '.') and e.get('rhs') == 'nullptr'):
+                    reset.add(e['path'].split('.')[-1])
+                if e.k == 'call' and norm(e.get('callee') or '') == 'std::swap':
+                    for a in e.get('args', []):
+                        if (a.get('path') or '').startswith(src + '.'):
+                            reset.add(a['path'].split('.')[-1])
+            nmv += 1
+            miss = {'_ptr', '_capacity'} - reset
+            ctx.ob(rid, f, f['key'], not miss, 'the moved-from storage gives up its block and its capacity together' + ('' if not miss else ' -- %s of the source is left behind' % ', '.join(sorted(miss))),
+                   desc='moved-from reusable_storage keeps %s' % ', '.join(sorted(miss)) if miss else None)
+    if nmv == 0:
+        raise Broken('move operations of reusable_storage not instantiated')
     # promise_extra_storage
     seen = set()
     for f in db.need('cocls::promise_extra_storage::alloc'):
